@@ -164,7 +164,13 @@ def run(ctx):
         obj.meta["processing_method"] = "traditional" if kind == "T" else "azimuthal"
         kw = [dict(prominence=float(rng.uniform(0.2, 2.0))), dict(height=float(rng.uniform(1.5, 4.0))), dict(distance=int(rng.integers(2, 6)))][j % 3]
         r = hvgen.gen_range(rng, m.freq) if j % 4 else (None, None)
-        obj.update_peaks_bounded(search_range_in_hz=r, find_peaks_kwargs=kw)
+        kw_caller = dict(kw)
+        obj.update_peaks_bounded(search_range_in_hz=r, find_peaks_kwargs=kw_caller)
+        if j % 2 == 1 or j % 4 == 0:
+            # the caller goes on using ITS dictionary (for the next site): the object and the file must keep what was used
+            for key in list(kw_caller):
+                kw_caller[key] = 10 ** 6
+            kw_caller["width"] = 10 ** 6
         hs = obj.hvsrs if kind == "A" else [obj]
         if any(int(np.sum(x.valid_window_boolean_mask)) < 2 or not np.array_equal(x.valid_window_boolean_mask, x.valid_peak_boolean_mask) for x in hs):
             continue
